@@ -31,8 +31,8 @@ Import ListNotations.
 
 (** the components a schema lists under engine/processors, segmentors, translators
     (the ones this model knows; the Switcher, always first, is not listed) *)
-Inductive proc_id := PSpeller | PPunctuator | PSelector | PNavigator | PEditor | PKeyBinder.
-Inductive segm_id := SgAbc | SgPunct | SgFallback.
+Inductive proc_id := PSpeller | PPunctuator | PSelector | PNavigator | PEditor | PKeyBinder | PAsciiComposer.
+Inductive segm_id := SgAbc | SgPunct | SgFallback | SgAscii.
 Inductive trans_id := TrPunct | TrMain.   (* TrMain = the schema's other translator(s): Section variable [translate_main] of Trans.v *)
 
 (** a punctuation definition (punctuator/half_shape, full_shape): a scalar, a
@@ -50,6 +50,9 @@ Inductive kb_action :=
 | KaToggle (opt : bytes) | KaSet (opt : bytes) | KaUnset (opt : bytes)
 | KaSelect (schema : bytes).
 Record kbinding := mkKb { kb_accept : key; kb_whence : kb_when; kb_act : kb_action }.
+
+(** ascii_composer/switch_key: what a mode-switch key does to the composition (gear/ascii_composer.h) *)
+Inductive ac_style := AcInline | AcCommitText | AcCommitCode | AcClear | AcNoop.
 
 Record config := mkCfg {
   cf_fluid : bool;            (* fluid_editor (true) or express_editor (false) *)
@@ -73,8 +76,15 @@ Record config := mkCfg {
   cf_digit_sep_commit : bool;     (* punctuator/digit_separator_action == "commit" *)
   cf_bindings : list kbinding;    (* key_binder/bindings, in the order of the list (after import_preset/patches) *)
   cf_kb_guard : bool;             (* source fact: KeyBinder replays the target keys with redirecting_ = true and declines every key while it is set *)
-  cf_hist_guard : bool            (* source fact: CommitHistory::Push(composition, input) never reads [last] after a later Push may have popped it *)
+  cf_hist_guard : bool;           (* source fact: CommitHistory::Push(composition, input) never reads [last] after a later Push may have popped it *)
+  cf_ascii_keys : list (Z * ac_style);  (* AsciiComposer::bindings_ after load_bindings: key code (no modifiers) -> style, noop entries dropped *)
+  cf_good_old_caps : bool         (* ascii_composer/good_old_caps_lock *)
 }.
+
+(** the members of AsciiComposer other than [connection_] (kept in the context, see Ctx.cx_conn):
+    shift_key_pressed_, ctrl_key_pressed_, toggle_with_caps_, toggle_expired_ (milliseconds of the
+    state's clock) *)
+Record acst := mkAc { ac_shift : bool; ac_ctrl : bool; ac_caps : bool; ac_expire : N }.
 
 (** Session + engine + navigator state. *)
 Record state := mkSt {
@@ -83,11 +93,15 @@ Record state := mkSt {
   st_spans : list nat;      (* Navigator::spans_ (sorted vertices) *)
   st_commit : bytes;        (* Session::commit_text_ *)
   st_odd : list (bool * byte * bool); (* Punctuator::oddness_: (definition = (full_shape?, key), oddness = 1) *)
-  st_kb_last : Z            (* KeyBinder::last_key_ *)
+  st_kb_last : Z;           (* KeyBinder::last_key_ *)
+  st_ac : acst;             (* AsciiComposer *)
+  st_clock : N              (* std::chrono::steady_clock::now() in milliseconds: an input (Api.OpTick) *)
 }.
 
 Definition st_with_ctx (s : state) (c : context) : state :=
-  mkSt c (st_nav_input s) (st_spans s) (st_commit s) (st_odd s) (st_kb_last s).
+  mkSt c (st_nav_input s) (st_spans s) (st_commit s) (st_odd s) (st_kb_last s) (st_ac s) (st_clock s).
+Definition st_with_ac (s : state) (a : acst) : state :=
+  mkSt (st_ctx s) (st_nav_input s) (st_spans s) (st_commit s) (st_odd s) (st_kb_last s) a (st_clock s).
 
 Section Engine.
 Variable cfg : config.
@@ -169,6 +183,15 @@ Definition punct_proceed (opts : list (bytes * bool)) (h : hist) (sg : segmentat
          end
   end.
 
+(** ---- AsciiSegmentor::Proceed (gear/ascii_segmentor.cc) ---- *)
+Definition ascii_proceed (opts : list (bytes * bool)) (sg : segmentation) : segmentation * bool :=
+  if negb (opts_get opts opt_ascii_mode) then (sg, true)
+  else
+    let j := cur_start sg in
+    if j <? length (sg_input sg)
+    then (fst (add_segment sg (seg_with_tags (new_segment j (length (sg_input sg))) [TRaw])), false)
+    else (sg, false).
+
 (** one round of the [for (auto& segmentor : segmentors_) if (!Proceed) break;] loop *)
 Definition segmentor_proceed (opts : list (bytes * bool)) (h : hist) (i : segm_id) (sg : segmentation)
   : segmentation * bool :=
@@ -176,6 +199,7 @@ Definition segmentor_proceed (opts : list (bytes * bool)) (h : hist) (i : segm_i
   | SgAbc => (abc_proceed sg, true)
   | SgPunct => punct_proceed opts h sg
   | SgFallback => (fallback_proceed sg, false)
+  | SgAscii => ascii_proceed opts sg
   end.
 Fixpoint run_segmentors (opts : list (bytes * bool)) (h : hist) (l : list segm_id) (sg : segmentation) : segmentation :=
   match l with
@@ -231,7 +255,7 @@ Definition translate_segs (opts : list (bytes * bool)) (sg : segmentation) : seg
   let (l, ok) := translate_list opts (sg_input sg) (sg_segs sg) in (sg_with_segs sg l, ok).
 
 (** ---- ConcreteEngine::Compose ---- *)
-Definition compose (c : context) : context :=
+Definition compose_core (c : context) : context :=
   let active_input := firstn (cx_caret c) (cx_input c) in
   let sg := reset_input (cx_comp c) active_input in
   let sg := if (cx_caret c <? length (cx_input c)) && (cx_caret c =? confirmed_pos sg)
@@ -239,6 +263,22 @@ Definition compose (c : context) : context :=
   let (sg1, okf) := calc_segmentation (cx_opts c) (cx_hist c) (cx_caret c) sg in
   let (sg2, oks) := translate_segs (cx_opts c) sg1 in
   ctx_check (ctx_check (ctx_with_comp c sg2) okf ErrFuel) oks ErrSubstr.
+
+(** AsciiComposer::OnContextUpdate, the slot that SwitchAsciiMode(true, inline) connects to
+    update_notifier_ ([cx_conn]): when the context has stopped composing it disconnects itself
+    and leaves the temporary ascii mode.  [set_option] fires option_update_notifier_;
+    ConcreteEngine::OnOptionUpdate does nothing to a context that is not composing. *)
+Definition ac_on_update (c : context) : context :=
+  if cx_conn c && negb (is_composing c)
+  then ctx_with_opts (ctx_with_conn c false) (opts_set (cx_opts c) opt_ascii_mode false)
+  else c.
+
+(** update_notifier_(this): the slots in connection order - ConcreteEngine::OnContextUpdate
+    (= Compose, connected by the engine's constructor), then the ascii composer's slot when it is
+    connected.  The one direct call of Compose (ConcreteEngine::OnSelect, the segment ending
+    before the end of the input) happens with a non-empty input, where the slot does nothing,
+    so it is written with the same function. *)
+Definition compose (c : context) : context := ac_on_update (compose_core c).
 
 (** ---- Context members that end in update_notifier_(this) ---- *)
 Definition push_input (c : context) (ch : byte) : context :=
@@ -262,7 +302,7 @@ Definition delete_input (c : context) (len : nat) : context * bool :=
 (** [Context::Clear]: [composition_.clear()] empties the vector but keeps
     Segmentation::input_ *)
 Definition clear (c : context) : context :=
-  compose (mkCtx [] 0 (sg_with_segs (cx_comp c) []) (cx_opts c) (cx_err c) (cx_hist c)).
+  compose (mkCtx [] 0 (sg_with_segs (cx_comp c) []) (cx_opts c) (cx_err c) (cx_hist c) (cx_conn c)).
 
 Definition set_caret_pos (c : context) (pos : nat) : context :=
   compose (ctx_with_input c (cx_input c) (if length (cx_input c) <? pos then length (cx_input c) else pos)).
@@ -352,7 +392,7 @@ Definition format_text (c : context) (text : bytes) : bytes :=
 
 (** [Engine::sink_] -> Session::OnCommit *)
 Definition sink (s : state) (text : bytes) : state :=
-  mkSt (st_ctx s) (st_nav_input s) (st_spans s) (st_commit s ++ text) (st_odd s) (st_kb_last s).
+  mkSt (st_ctx s) (st_nav_input s) (st_spans s) (st_commit s ++ text) (st_odd s) (st_kb_last s) (st_ac s) (st_clock s).
 
 (** [Context::Commit] with ConcreteEngine::OnCommit *)
 Definition commit (s : state) : state * bool :=
@@ -387,7 +427,7 @@ Definition on_select (s : state) : state :=
         then st_with_ctx s (set_caret_pos c1 (length (cx_input c1)))
         else st_with_ctx s (compose c1)
     end in
-  mkSt (st_ctx s') (st_nav_input s') [] (st_commit s') (st_odd s') (st_kb_last s').
+  mkSt (st_ctx s') (st_nav_input s') [] (st_commit s') (st_odd s') (st_kb_last s') (st_ac s') (st_clock s').
 
 (** [Context::Select(index)] *)
 Definition select (s : state) (index : N) : state * bool :=
